@@ -28,7 +28,9 @@ def run(tier: str, rep: Report):
 
     def mc(job):
         v, mode = job
-        wb = "mixed" if v == "37" else ("all" if tier == "thorough" or v == "310" else "compiler")
+        # 3.7 and 3.8: converting a flag word costs time proportional to the number of distinct words the process has
+        # seen (IntFlag pseudo-members): all 2^18 words only where that is not so
+        wb = "mixed" if v == "37" else ("all" if v == "310" or (tier == "thorough" and v == "39") else "compiler")
         cfg = wd / f"MC_Flags_{v}_{mode}.cfg"
         cfg.write_text(f'SPECIFICATION Spec\nCONSTANTS\n  Ver = "{v}"\n  Mode = "{mode}"\n  '
                        f'WordBits = "{wb}"\n  Emit = TRUE\nINVARIANT C11Model\n')
@@ -78,7 +80,7 @@ def run(tier: str, rep: Report):
     rep.cov["rule"] = ("cases = (version, flag word) and (version, base scope, alteration) states of MC_Flags, all distinct; "
                        "non-trivial = word with >= 2 bits set, or any altered header the constructor accepts")
     rep.cov["exhaustive"] = True
-    rep.cov["explanation"] = ("words: every subset of the 18 defined flag bits (3.10 in quick, 3.8-3.10 in "
+    rep.cov["explanation"] = ("words: every subset of the 18 defined flag bits (3.10 in quick, 3.9-3.10 in "
                               "thorough; the 10 compiler flags otherwise; on 3.7 compiler subsets + __future__ subsets + all "
                               "known subsets of size <= 3, because its enum module makes from_flags_data quadratic) + every single unknown bit + every known "
                               "subset of size <= 1 joined with every unknown bit; headers: 9 base scopes x (flips of <= 2 "
